@@ -10,7 +10,7 @@ connection on a read error, an undecodable call or a failed write (`swap_remove`
 returns to `conns` when the stream ends, the subscription is dropped when the write fails.
 
 The service is the fixed family the correspondence harness implements (echo / error / stream of `n`
-items / undecodable call). Ghost fields (`good`, `frames`, `descs`, `fut`, `k`) are never read by the loop. -/
+items with a flag pattern / undecodable call). Ghost fields (`good`, `frames`, `descs`, `fut`, `k`) are never read by the loop. -/
 namespace Srv
 open Rx
 
@@ -21,12 +21,12 @@ instance : Inhabited Net := ⟨⟨[], false, 0⟩⟩
 inductive Desc
   | echo (v : Nat) (oneway : Bool)
   | fail (oneway : Bool)
-  | sub (n : Nat)
+  | sub (n : Nat) (pat : Nat)   -- stream of `n` items; `pat` = which `continues` flags the service puts on them
   | garbage
 deriving Repr, Inhabited, DecidableEq
 
 /-- What reaches a client: a reply, an error, a stream item with its `continues` flag. -/
-inductive Tok | R (v : Nat) | E | I (v : Nat) (cont : Bool)
+inductive Tok | R (v : Nat) | E | I (v : Nat) (cont : Option Bool)
 deriving Repr, DecidableEq, Inhabited
 
 structure Conn where
@@ -47,7 +47,7 @@ deriving Inhabited
 
 structure S where
   conns : List Conn
-  streams : List (List (Nat × Bool) × Conn)
+  streams : List (List (Nat × Option Bool) × Conn)
   lastCall : Option Nat
   lastStream : Option Nat
   listenQ : List Conn
@@ -78,14 +78,19 @@ def scanCalls (C : Consts) (sizes : Nat → Nat) (n start : Nat) :
       | .pending => scanCalls C sizes n start i cs'
       | o => (cs', some (idx, o, c'))
 
-def itemsOf (n : Nat) : List (Nat × Bool) := (List.range n).map fun i => (i, decide (i + 1 < n))
-def tokOf (p : Nat × Bool) : Tok := .I p.1 p.2
+/-- the flag the test service puts on item `i` of `n`: pattern 0 = the conventional one (`true` on every
+    item but the last), 1 = always `true`, 2 = alternating starting with `true`, other = no flag at all -/
+def flagOf (pat n i : Nat) : Option Bool :=
+  if pat = 0 then some (decide (i + 1 < n)) else if pat = 1 then some true
+  else if pat = 2 then some (decide (i % 2 = 0)) else none
+def itemsOf (n pat : Nat) : List (Nat × Option Bool) := (List.range n).map fun i => (i, flagOf pat n i)
+def tokOf (p : Nat × Option Bool) : Tok := .I p.1 p.2
 
 /-- what the service's answer puts on the wire for one call (nothing for a oneway call) -/
 def answer : Desc → List Tok
   | .echo v ow => if ow then [] else [.R v]
   | .fail ow => if ow then [] else [.E]
-  | .sub n => (itemsOf n).map tokOf
+  | .sub n p => (itemsOf n p).map tokOf
   | .garbage => []
 
 /-- sequential per-connection reference -/
@@ -115,8 +120,9 @@ def iter (C : Consts) (sizes : Nat → Nat) (s : S) : Option S :=
           let c := { c with calls := rest, k := c.k + 1 }
           match d with
           | .garbage => some { s with conns := swapRemove s.conns idx, dead := c :: s.dead }
-          | .sub m => some { s with conns := swapRemove s.conns idx, streams := s.streams ++ [(itemsOf m, c)],
-                                    served := s.served ++ [(c.id, d)] }
+          | .sub m pat =>
+            some { s with conns := swapRemove s.conns idx, streams := s.streams ++ [(itemsOf m pat, c)],
+                          served := s.served ++ [(c.id, d)] }
           | d =>
             let s := { s with served := s.served ++ [(c.id, d)] }
             if answer d = [] then some { s with conns := s.conns.set idx c }
